@@ -130,6 +130,38 @@ def run(ctx):
                     "rendered magnitude decreases", {"smaller": prev[s][0], "larger": v, "system": s},
                     expected=">= %s" % prev[s][1], observed=str(mag)))
             prev[s] = (v, mag)
+    # ---- which prefix system a quantity gets: powers of 1024 for bytes, of 1000 for counts — in the rendered table
+    from props import c11 as _c11
+    BYTES = {"uniqueCommitSize", "uniqueTreeSize", "uniqueBlobSize", "maxCommitSize", "maxBlobSize", "maxCheckoutPathLength", "maxCheckoutBlobSize"}
+    treqs, tmeta = [], []
+    for it in range(12 if ctx["tier"] == "quick" else 200):
+        v = [0] * 22
+        for idx, sym, width, ref in _c11.ITEMS:
+            v[idx] = min(2**width - 2, rng.choice([999, 1000, 1023, 1024, 1536, 10**6, 2**20, 123456789, 5 * 2**30 + 7, 10**12 + 1]))
+        treqs.append("table 0 none %s -" % ",".join(map(str, v)))
+        tmeta.append(v)
+    tout = vlib.batch(ctx["bins"]["api"], treqs)
+    freqs = [("fmt %s %d" % ("binary" if sym in BYTES else "metric", v[idx])) for v in tmeta for idx, sym, width, ref in _c11.ITEMS]
+    fout = vlib.batch(ctx["bins"]["api"], freqs)
+    k = 0
+    for v, o, req in zip(tmeta, tout, treqs):
+        parts = dict(p.split(":", 1) for p in o.split() if ":" in p)
+        tbl = bytes.fromhex(parts["T"]).decode("utf-8", "replace")
+        rows = [l for l in _c11.table_rows(tbl) if l.split("|")[2].strip() != ""]
+        res.case(req, True)
+        if len(rows) != len(_c11.ITEMS):
+            res.violations.append(vlib.Violation("verbose table does not show the 22 metrics", {"request": req}, observed=tbl[:800]))
+            k += len(_c11.ITEMS)
+            continue
+        for (idx, sym, width, ref), row in zip(_c11.ITEMS, rows):
+            numeral, _, unit = fout[k].partition("|")
+            k += 1
+            want = (numeral + " " + unit + ("B" if sym in BYTES else "")).strip()
+            got = " ".join(row.split("|")[2].split())
+            if got != want:
+                res.violations.append(vlib.Violation(
+                    "the table renders %s with the wrong prefix system or numeral" % sym, {"request": req, "value": v[idx]},
+                    expected=want, observed=got))
     res.coverage_extra["input_distribution"] = dict(kinds, values=len(vs))
     res.assumptions = ["fmt %.Nf and float64 division are modelled as correctly rounded (IEEE 754, ties to even)"]
     return res
